@@ -123,6 +123,25 @@ def shard(binpath, seed, sh, ncases):
             donor = sig[rng.choice(pool)]["sig"]
             extra_entries.append({"keyid": wk["keyid"], "sig": rng.choice([donor, "ab" * 64, "", "00" * 256])})
             why.add("unknown_scheme_key")
+        # authorised keys whose JSON description *declares* a "keyid" member that is not the key's own id: the id of
+        # a key is derived from the key, so the declaration can neither give the key a second identity (its signature
+        # repeated under the declared label counts nothing) nor displace the key that really owns that id
+        ra = rng.random()
+        if auth and ra < 0.15:
+            k = rng.choice(auth)
+            outs = [x for x in common.ALL_KEYS if x not in pool]
+            fake = rng.choice(["ef" * 32, W.kid(rng.choice(outs)) if outs else "ef" * 32])
+            p = copy.deepcopy(W.pub(k))
+            p["keyid"] = fake
+            extra_auth.append(p)
+            extra_entries.append({"keyid": fake, "sig": sig[k]["sig"]})
+            why.add("auth_key_declares_second_id")
+        elif len(auth) >= 2 and ra < 0.3:
+            a, b = rng.sample(auth, 2)
+            p = copy.deepcopy(W.pub(b))
+            p["keyid"] = W.kid(a)
+            extra_auth.append(p)             # b once more, declaring a's id (b itself stays in the list)
+            why.add("auth_key_declares_other_id")
         labels = [k for k, _, _ in entries]
         once = len(labels) == len(set(labels))
         v = len({vf for k, _, vf in entries if vf is not None and vf in auth})
@@ -185,6 +204,7 @@ def main(ctx):
         assumptions=["ground truth of signature validity is by construction (who signed which bytes, what was edited)",
                      "ring's primitives are correct"],
         required=["accepted", "rejected", "t=0", "t>n", "kind:dup", "kind:resign", "kind:mislabeled",
-                  "kind:flipped", "kind:unauthorised", "kind:other_content", "kind:unknown_scheme_key", "once", "repeated-labels",
+                  "kind:flipped", "kind:unauthorised", "kind:other_content", "kind:unknown_scheme_key", "kind:auth_key_declares_second_id",
+                  "kind:auth_key_declares_other_id", "once", "repeated-labels",
                   "accepted_with_t>=2"],
         min_evals=1000)
